@@ -118,7 +118,12 @@ def run(ctx):
         ctx.current("fit %r" % (wit,))
         try:
             model, events, alive, state = build()
-            res = model.fit(data)
+            # termination as a logical bound: at most n - 1 merges, each scanning an n x n matrix a few times
+            with monitors.step_bound([H.Hierarchical.fit.__code__], 4000 + 600 * n * n):
+                res = model.fit(data)
+        except monitors.StepLimit as e:
+            ctx.violation("hierarchical-invariant", reason="no termination: " + str(e), **wit)
+            continue
         except Exception as e:
             ctx.violation("exception", fn="fit", error=repr(e)[:300], **wit)
             continue
